@@ -3,5 +3,6 @@ CONSTANTS
   T = 3
   Interval = 1
   MaxNow = 12
+  Deviations = {}
 INVARIANTS SilentPeerDroppedBy PingingPeerNeverDropped
 CHECK_DEADLOCK FALSE
